@@ -50,14 +50,25 @@ TYPES = {
     "parr": ("*[2]int", True, False),
     "parr0": ("*[0]int", True, False),
     "pany": ("*any", True, False),
+    "fe": ("func() error", True, False),
+    "fa": ("func() any", True, False),
+    "src": ("{A}Src", True, True),
 }
 PTRLIKE = [k for k, v in TYPES.items() if v[1]]
 RESULT_TYPES = ["pint", "pint", "pt", "sl", "sl", "is", "bs", "mp", "ch", "fn", "fv", "nf", "any", "any", "any",
                 "err", "err", "ii", "up", "up", "parr", "parr0", "pany", "ppint", "pe"]
 PARAM_TYPES = ["pint", "pint", "pt", "pt", "sl", "sl", "is", "mp", "ch", "fn", "fv", "any", "any", "err", "ii", "up",
-               "uintptr", "uintptr", "bool", "string", "parr", "pany", "pany", "ppint", "int", "pe", "bs"]
+               "uintptr", "uintptr", "bool", "string", "parr", "pany", "pany", "ppint", "int", "pe", "bs", "fe", "fa", "src"]
 COMPARABLE = ["pint", "pt", "ch", "up", "pe", "ppint", "pany"]
-GLOBALS = [("GP", "pint"), ("GA", "any"), ("GE", "err"), ("GS", "sl"), ("GF", "fn"), ("GM", "mp"), ("GU", "up"), ("GI", "ii")]
+GLOBALS = [("GP", "pint"), ("GA", "any"), ("GE", "err"), ("GS", "sl"), ("GF", "fn"), ("GM", "mp"), ("GU", "up"), ("GI", "ii"),
+           ("GFE", "fe"), ("GFA", "fa"), ("GSrc", "src"), ("GPE", "pe")]
+# package-level variables that no input vector sets: never assigned (nil at run time) / assigned once in init()
+FIXED_GLOBALS = {"pint": ["NP", "IP", "IQ"], "any": ["NA"], "err": ["NE", "IE"], "sl": ["NS"], "pe": ["NPE"]}
+GLOBALS_BY_TYPE = {}
+for _g, _t in GLOBALS:
+    GLOBALS_BY_TYPE.setdefault(_t, []).append(_g)
+for _t, _gs in FIXED_GLOBALS.items():
+    GLOBALS_BY_TYPE.setdefault(_t, []).extend(_gs)
 
 
 def gotype(t, pkg):
@@ -112,6 +123,41 @@ func MkArr(n int) [2]*int {
 func MkNil() *int      { return nil }
 func MkNew() *int      { return new(int) }
 
+// dynamic-call targets: interface method sets and functions handed around as values
+type Src interface {
+	Next() error
+	Val() any
+	Ptr() *int
+}
+type NilSrc struct{}
+
+func (NilSrc) Next() error { return (*E)(nil) }
+func (NilSrc) Val() any    { return (*int)(nil) }
+func (NilSrc) Ptr() *int   { return nil }
+
+type OkSrc struct{ P *int }
+
+func (s *OkSrc) Next() error {
+	if s == nil || s.P == nil {
+		return nil
+	}
+	return &E{}
+}
+func (s *OkSrc) Val() any {
+	if s == nil {
+		return nil
+	}
+	return s.P
+}
+func (s *OkSrc) Ptr() *int { return s.P }
+
+func TypedNilErr() error { return (*E)(nil) }
+func NilErr() error      { return nil }
+func NewErr() error      { return &E{} }
+func TypedNilAny() any   { return (*int)(nil) }
+func NilAny() any        { return nil }
+func NewAny() any        { return new(int) }
+
 var GP *int
 var GA any
 var GE error
@@ -120,6 +166,28 @@ var GF func() *int
 var GM map[int]*int
 var GU unsafe.Pointer
 var GI I
+var GFE func() error
+var GFA func() any
+var GSrc Src
+var GPE *E
+
+// never assigned: nil in every execution
+var NP *int
+var NA any
+var NE error
+var NS []int
+var NPE *E
+
+// assigned once, in init
+var IP *int
+var IQ *int
+var IE error
+
+func init() {
+	IP = nil
+	IQ = new(int)
+	IE = (*E)(nil)
+}
 """
 
 PRELUDE_B = """package b
@@ -136,7 +204,7 @@ var _ = a.G0
 
 # input pools (expressions valid in package main; fresh values per call)
 INPUTS = {
-    "int": ["0", "1", "3"],
+    "int": ["0", "1", "2", "3", "7"],
     "uintptr": ["0", "8"],
     "bool": ["false", "true"],
     "string": ['""', '"ab"'],
@@ -159,6 +227,9 @@ INPUTS = {
     "up": ["nil", "unsafe.Pointer(new(int))"],
     "parr": ["nil", "new([2]int)"],
     "parr0": ["nil", "new([0]int)"],
+    "fe": ["nil", "a.TypedNilErr", "a.NewErr", "a.NilErr", "func() error { return (*a.E)(nil) }", "a.NilSrc{}.Next", "(&a.OkSrc{P: new(int)}).Next"],
+    "fa": ["nil", "a.TypedNilAny", "a.NewAny", "a.NilAny", "func() any { return (*a.T)(nil) }", "a.NilSrc{}.Val"],
+    "src": ["nil", "a.NilSrc{}", "&a.OkSrc{P: new(int)}", "&a.OkSrc{}", "(*a.OkSrc)(nil)"],
     "pany": ["nil", "new(any)", "anyp(1)", "anyp((*int)(nil))", "anyp(new(int))", "anyp(&a.E{})", "anyp((*a.E)(nil))", "anyp([]int{1})"],
 }
 
@@ -261,6 +332,8 @@ class Func:
         self.cost = 1
         self.feats = set()
         self.corpus = False
+        self.shape = None         # control-flow template the function was built from (None: random grammar)
+        self.grid = False         # member of the merge grid
 
     @property
     def key(self):
@@ -331,7 +404,7 @@ class Gen:
     def nil_of(self, t, bare=False):
         if bare:
             return "nil"
-        return "(%s)(nil)" % self.ty(t) if t not in ("any", "err", "ii", "up", "sl", "is", "nf", "bs") else "%s(nil)" % self.ty(t)
+        return "(%s)(nil)" % self.ty(t) if t not in ("any", "err", "ii", "up", "sl", "is", "nf", "bs", "src") else "%s(nil)" % self.ty(t)
 
     def callable_with_result(self, t):
         out = []
@@ -455,6 +528,7 @@ class Gen:
             "ch": "make(chan int, 1)", "fn": self.q("MkNew"), "fv": self.q("G0"), "nf": "%s(%s)" % (self.q("F"), self.q("G0")),
             "any": "any(1)", "err": "error(&%s{})" % self.q("E"), "ii": "%s(&%s{})" % (self.q("I"), self.q("T")),
             "up": "unsafe.Pointer(new(int))", "parr": "new([2]int)", "parr0": "new([0]int)", "pany": "new(any)",
+            "fe": self.q("NewErr"), "fa": self.q("NewAny"), "src": "%s(%s{})" % (self.q("Src"), self.q("NilSrc")),
         }
         if self.r.chance(1, 3) and not self.nonil:
             return self.nil_of(t, bare)
@@ -462,7 +536,8 @@ class Gen:
 
     RISKY = {"fieldaddr", "indexaddr", "field-load", "load-pp", "typeassert", "typeassert-ii", "typeassert-err",
              "typeassert-iface", "call-dyn", "invoke", "static-method", "indexaddr-parr", "s2ap", "slice-nz", "slice-var",
-             "slice-parr", "slice-parr0", "iface-method-value", "load-iface", "global-addr-load", "make-slice"}
+             "slice-parr", "slice-parr0", "iface-method-value", "load-iface", "global-addr-load", "make-slice",
+             "call-dyn-iface", "invoke-iface", "call-closure-iface"}
 
     def F(self, feat, fn):
         def g():
@@ -503,7 +578,8 @@ class Gen:
             F("static-method", lambda: "%s.Get()" % e("pt", d + 1)),
             F("indexaddr-parr", lambda: "&%s[1]" % e("parr", d + 1)),
             F("slicedata", lambda: "unsafe.SliceData(%s)" % e("sl", d + 1)),
-            F("global-load", lambda: self.q("GP")),
+            F("global-load", lambda: self.q(self.r.choice(GLOBALS_BY_TYPE["pint"]))),
+            F("invoke", lambda: "%s.Ptr()" % e("src", d + 1)),
             F("global-addr-load", lambda: "*(&%s)" % self.q("GP")),
             F("field-value", lambda: "%s(n).P" % self.q("MkT")),
             F("index-value", lambda: "%s(n)[%s]" % (self.q("MkArr"), self.r.choice(["0", "1"]))),
@@ -530,6 +606,7 @@ class Gen:
             F("complit-addr", lambda: "&%s{}" % self.q("E")),
             F("typeassert-err", lambda: "%s.(*%s)" % (self.holding("err", "pe", d), self.q("E"))),
             F("typeassert", lambda: "%s.(*%s)" % (self.holding("any", "pe", d), self.q("E"))),
+            F("global-load", lambda: self.q(self.r.choice(GLOBALS_BY_TYPE["pe"]))),
         ]
 
     def e_sl(self, d):
@@ -558,7 +635,7 @@ class Gen:
             F("unsafe-slice", lambda: "unsafe.Slice(%s, 1)" % e("pint", d + 1)),
             F("typeassert", lambda: "%s.([]int)" % self.holding("any", "sl", d)),
             F("field-value", lambda: "%s(n).S" % self.q("MkT")),
-            F("global-load", lambda: self.q("GS")),
+            F("global-load", lambda: self.q(self.r.choice(GLOBALS_BY_TYPE["sl"]))),
         ]
 
     def e_is(self, d):
@@ -623,7 +700,10 @@ class Gen:
             F("field-load", lambda: "%s.I" % e("pt", d + 1)),
             F("load-iface", lambda: "*%s" % e("pany", d + 1)),
             F("load-iface", lambda: "*%s" % e("pany", d + 1)),
-            F("global-load", lambda: self.q("GA")),
+            F("global-load", lambda: self.q(self.r.choice(GLOBALS_BY_TYPE["any"]))),
+            F("call-dyn-iface", lambda: "%s()" % e("fa", d + 1)),
+            F("invoke-iface", lambda: "%s.Val()" % e("src", d + 1)),
+            F("call-closure-iface", lambda: "func() any { return %s }()" % e("any", 3)),
             F("field-value", lambda: "%s(n).I" % self.q("MkT")),
             F("recover", lambda: "recover()"),
         ]
@@ -635,7 +715,11 @@ class Gen:
             F("makeiface-typednil", lambda: "error((*%s)(nil))" % self.q("E")),
             F("typeassert-iface", lambda: "%s.(error)" % self.holding("any", "pe", d)),
             F("field-load", lambda: "%s.E" % e("pt", d + 1)),
-            F("global-load", lambda: self.q("GE")),
+            F("global-load", lambda: self.q(self.r.choice(GLOBALS_BY_TYPE["err"]))),
+            F("call-dyn-iface", lambda: "%s()" % e("fe", d + 1)),
+            F("call-dyn-iface", lambda: "%s()" % e("fe", d + 1)),
+            F("invoke-iface", lambda: "%s.Next()" % e("src", d + 1)),
+            F("call-closure-iface", lambda: "func() error { return %s }()" % e("err", 3)),
         ]
 
     def e_ii(self, d):
@@ -646,6 +730,38 @@ class Gen:
             F("typeassert-iface", lambda: "%s.(%s)" % (self.holding("any", "pt", d), self.q("I"))),
             F("typeassert-iface", lambda: "%s.(%s)" % (self.holding("err", "pe", d), self.q("I"))),
             F("global-load", lambda: self.q("GI")),
+        ]
+
+    def e_fe(self, d):
+        e, F = self.expr, self.F
+        return [
+            F("func-value", lambda: self.q("TypedNilErr")), F("func-value", lambda: self.q("NewErr")),
+            F("func-value", lambda: self.q("NilErr")),
+            F("closure", lambda: "func() error { return %s }" % e("err", 3)),
+            F("closure", lambda: "func() error { return (*%s)(nil) }" % self.q("E")),
+            F("iface-method-value", lambda: "%s.Next" % e("src", d + 1)),
+            F("method-value", lambda: "%s{}.Next" % self.q("NilSrc")),
+            F("global-load", lambda: self.q("GFE")),
+        ]
+
+    def e_fa(self, d):
+        e, F = self.expr, self.F
+        return [
+            F("func-value", lambda: self.q("TypedNilAny")), F("func-value", lambda: self.q("NewAny")),
+            F("func-value", lambda: self.q("NilAny")),
+            F("closure", lambda: "func() any { return %s }" % e("any", 3)),
+            F("iface-method-value", lambda: "%s.Val" % e("src", d + 1)),
+            F("method-value", lambda: "(&%s{P: %s}).Val" % (self.q("OkSrc"), e("pint", d + 1))),
+            F("global-load", lambda: self.q("GFA")),
+        ]
+
+    def e_src(self, d):
+        e, F = self.expr, self.F
+        return [
+            F("makeiface-struct", lambda: "%s(%s{})" % (self.q("Src"), self.q("NilSrc"))),
+            F("makeiface-ptr", lambda: "%s(&%s{P: %s})" % (self.q("Src"), self.q("OkSrc"), e("pint", d + 1))),
+            F("makeiface-ptr", lambda: "%s(&%s{})" % (self.q("Src"), self.q("OkSrc"))),
+            F("global-load", lambda: self.q("GSrc")),
         ]
 
     def e_up(self, d):
@@ -969,6 +1085,146 @@ class Gen:
         out.append("%s}" % ind)
         return hasdef and allterm
 
+    # ---- shape functions: loops that carry pointer-like values, joins in both operand orders, dynamic calls
+    SHAPE_TYPES = ["pint", "pint", "err", "err", "err", "any", "any", "pt", "sl", "mp", "ii", "fn", "pe", "up", "ch"]
+    NONNIL = {"pint": "new(int)", "pt": "&{A}T{}", "pe": "&{A}E{}", "sl": "[]int{1}", "mp": "map[int]*int{}",
+              "ch": "make(chan int, 1)", "fn": "{A}MkNew", "up": "unsafe.Pointer(new(int))",
+              "any": "any(new(int))", "err": "error(&{A}E{})", "ii": "{A}I(&{A}T{})"}
+    TYPEDNIL = {"any": ["any((*int)(nil))", "any((*{A}T)(nil))", "any([]int(nil))"], "err": ["error((*{A}E)(nil))"],
+                "ii": ["{A}I((*{A}T)(nil))", "{A}I((*{A}E)(nil))"]}
+    DYN = {"err": ["f0()", "s0.Next()", "{A}GFE()", "func() error { return p0 }()"],
+           "any": ["f0()", "s0.Val()", "{A}GFA()", "func() any { return p0 }()"],
+           "pint": ["f0()", "s0.Ptr()", "{A}GF()", "func() *int { return p0 }()"]}
+    DYN_PARAM = {"err": "fe", "any": "fa", "pint": "fn"}
+    LOOP_SHAPES = ["L1", "L1", "L1", "L2", "L2", "L3", "L4", "L5", "L6", "L7", "L8", "L9", "L10", "L11", "L12", "L12", "L13"]
+    JOIN_SHAPES = ["J1", "J1", "J2", "J2", "J3", "J4", "J4", "J5", "J6"]
+
+    def A(self, txt):
+        return txt.replace("{A}", "" if self.pkg == "a" else "a.")
+
+    def atom(self, t, cat=None):
+        """a value source of type t: (expression, category)"""
+        r = self.r
+        cats = ["fresh", "fresh", "nil", "param", "param", "expr"]
+        if t in GLOBALS_BY_TYPE:
+            cats += ["global", "global"]
+        if t in self.TYPEDNIL:
+            cats += ["typednil", "typednil"]
+        if t in self.DYN:
+            cats += ["dyn", "dyn", "dyn"]
+        if self.callable_with_result(t):
+            cats += ["call", "call"]
+        cat = cat or r.choice(cats)
+        self.feat("atom-" + cat)
+        if cat == "fresh":
+            return self.A(self.NONNIL[t]), cat
+        if cat == "nil":
+            return self.nil_of(t), cat
+        if cat == "param":
+            return "p0", cat
+        if cat == "global":
+            return self.q(r.choice(GLOBALS_BY_TYPE[t])), cat
+        if cat == "typednil":
+            return self.A(r.choice(self.TYPEDNIL[t])), cat
+        if cat == "dyn":
+            return self.A(r.choice(self.DYN[t])), cat
+        if cat == "call":
+            c = self.gen_call(r.choice(self.callable_with_result(t)), 1)
+            if c:
+                return c, cat
+            return self.A(self.NONNIL[t]), "fresh"
+        old = self.risk
+        self.risk = 0       # no operation that can panic: shape functions should return normally
+        try:
+            return self.expr(t, 1), cat
+        finally:
+            self.risk = old
+
+    def shape_function(self, name, shape=None):
+        """a function built from a fixed control-flow shape with random value sources"""
+        r = self.r
+        t = r.choice(self.SHAPE_TYPES)
+        shape = shape or r.choice(self.LOOP_SHAPES * 2 + self.JOIN_SHAPES)
+        params = [("n", "int"), ("c", "bool"), ("p0", t)]
+        if t in self.DYN_PARAM:
+            params += [("f0", self.DYN_PARAM[t]), ("s0", "src")]
+        results = [t, t] if shape in ("J6", "L13") else [t]
+        f = Func(name, self.pkg, params, results, False, False)
+        f.shape = shape
+        self.f = f
+        self.push()
+        for i, (pn, pt) in enumerate(params):
+            self.declare(pn, pt, assignable=(i != 0))
+        T = self.ty(t)
+        a, b, c3 = self.atom(t)[0], self.atom(t)[0], self.atom(t)[0]
+        cond = r.choice(["c", "!c", "n > 0", "n == 0", "n > 1", "p0 != nil", "p0 == nil"])
+        L = []
+        w = L.append
+        self.feat("shape-" + shape)
+        if shape == "L1":      # single-block self loop: every update comes before the exit test; previous value returned
+            w("p := %s" % a); w("for {"); w("\tq := p"); w("\t_ = q"); w("\tp = %s" % b); w("\tn--")
+            w("\tif n < 0 {"); w("\t\treturn %s" % r.choice(["q", "q", "p"])); w("\t}"); w("}")
+        elif shape == "L2":    # two values swapped across iterations (parallel phis), self loop
+            w("x, y := %s, %s" % (a, b)); w("for {"); w("\tx, y = y, x"); w("\tn--")
+            w("\tif n < 0 {"); w("\t\treturn %s" % r.choice(["x", "y"])); w("\t}"); w("}")
+        elif shape == "L3":    # three-way rotation
+            w("x, y, z := %s, %s, %s" % (a, b, c3)); w("for i := 0; i < n; i++ {"); w("\tx, y, z = y, z, x"); w("}")
+            w("_, _ = y, z"); w("return %s" % r.choice(["x", "y", "z"]))
+        elif shape == "L4":    # counted loop, value replaced in the body
+            w("p := %s" % a); w("for i := 0; i < n; i++ {"); w("\tp = %s" % b); w("}"); w("return p")
+        elif shape == "L5":    # break out of the loop with a different value
+            w("p := %s" % a); w("for i := 0; i < n; i++ {"); w("\tif i == 1 {"); w("\t\tp = %s" % b); w("\t\tbreak"); w("\t}")
+            w("\tp = %s" % c3); w("}"); w("return p")
+        elif shape == "L6":    # continue skips the update
+            w("p := %s" % a); w("for i := 0; i < n; i++ {"); w("\tif i%2 == 0 {"); w("\t\tcontinue"); w("\t}")
+            w("\tp = %s" % b); w("}"); w("return p")
+        elif shape == "L7":    # nested loops, values carried through both
+            w("p := %s" % a); w("for i := 0; i < n; i++ {"); w("\tq := p"); w("\tfor j := 0; j < i; j++ {")
+            w("\t\tp = %s" % b); w("\t\tq, p = p, q"); w("\t}"); w("\tp = q"); w("}"); w("return p")
+        elif shape == "L8":    # range loop carrying the last element out
+            k = r.below(3)
+            w("last := %s" % a)
+            if k == 0:
+                w("for _, v := range []%s{%s, %s} {" % (T, b, c3)); w("\tif n > 0 {"); w("\t\tlast = v"); w("\t}"); w("\tn--"); w("}")
+            elif k == 1:
+                w("for i := range n {"); w("\t_ = i"); w("\tlast = %s" % b); w("}")
+            else:
+                w("for _, v := range [2]%s{%s, %s} {" % (T, b, c3)); w("\tlast = v"); w("\tif n == 1 {"); w("\t\tbreak"); w("\t}"); w("}")
+            w("return last")
+        elif shape == "L9":    # loop built from goto
+            w("p := %s" % a); w("var q %s" % T); w("loop:"); w("q = p"); w("_ = q"); w("p = %s" % b); w("n--")
+            w("if n >= 0 {"); w("\tgoto loop"); w("}"); w("return %s" % r.choice(["q", "q", "p"]))
+        elif shape == "L10":   # exit test first (separate latch block)
+            w("p := %s" % a); w("for {"); w("\tn--"); w("\tif n < 0 {"); w("\t\treturn p"); w("\t}"); w("\tp = %s" % b); w("}")
+        elif shape == "L11":   # self loop with the exit test on the carried value itself
+            w("p := %s" % a); w("for {"); w("\tq := p"); w("\tp = %s" % b); w("\tn--")
+            w("\tif n < 0 || q == nil {"); w("\t\treturn q"); w("\t}"); w("}")
+        elif shape == "L12":   # self loop, value produced by a call in the loop, previous one returned
+            cs = self.DYN.get(t)
+            call = self.A(r.choice(cs)) if cs and r.chance(2, 3) else b
+            w("var cur %s = %s" % (T, a)); w("for {"); w("\tlast := cur"); w("\tcur = %s" % call); w("\tn--")
+            w("\tif n < 0 {"); w("\t\treturn last"); w("\t}"); w("}")
+        elif shape == "L13":   # two results out of a self loop
+            w("x, y := %s, %s" % (a, b)); w("for {"); w("\tx, y = y, %s" % c3); w("\tn--")
+            w("\tif n < 0 {"); w("\t\treturn x, y"); w("\t}"); w("}")
+        elif shape == "J1":    # two return statements: merged in block order
+            w("if %s {" % cond); w("\treturn %s" % a); w("}"); w("return %s" % b)
+        elif shape == "J2":    # phi, left operand = value before the if
+            w("x := %s" % a); w("if %s {" % cond); w("\tx = %s" % b); w("}"); w("return x")
+        elif shape == "J3":    # phi of two arms
+            w("var x %s" % T); w("if %s {" % cond); w("\tx = %s" % a); w("} else {"); w("\tx = %s" % b); w("}"); w("return x")
+        elif shape == "J4":    # replace nil by a default (merge after a nil check)
+            w("x := %s" % a); w("if x %s nil {" % r.choice(["==", "==", "!="])); w("\tx = %s" % b); w("}"); w("return x")
+        elif shape == "J5":    # three-way switch
+            w("switch n {"); w("case 0:"); w("\treturn %s" % a); w("case 1:"); w("\treturn %s" % b); w("}"); w("return %s" % c3)
+        elif shape == "J6":    # two results, crossed
+            w("x, y := %s, %s" % (a, b)); w("if %s {" % cond); w("\tx, y = y, %s" % c3); w("}"); w("return x, y")
+        else:
+            raise AssertionError(shape)
+        self.pop()
+        f.text = self.header(f) + " {\n" + "\n".join("\t" + l if l != "loop:" else l for l in L) + "\n}\n"
+        return f
+
     # ---- a whole function
     def function(self, name, method=False, recursive=False):
         r = self.r
@@ -1050,17 +1306,109 @@ def load_corpus():
     return out
 
 
+def cycle_functions(r, funcs, pkg, idx):
+    """a call cycle of 2-4 mutually recursive functions (plus, sometimes, chords inside the cycle);
+    n strictly decreases along every call, so every execution terminates"""
+    k = 2 + r.below(3)
+    g = Gen(r, list(funcs), pkg, idx)
+    t = r.choice(["pint", "pint", "err", "any", "pt", "sl", "ii"])
+    T = g.ty(t)
+    names = ["C%d_%d" % (idx, j) for j in range(k)]
+    out = []
+    for j in range(k):
+        params = [("n", "int"), ("c", "bool"), ("p0", t)]
+        if t in Gen.DYN_PARAM:
+            params += [("f0", Gen.DYN_PARAM[t]), ("s0", "src")]
+        f = Func(names[j], pkg, params, [t], False, False)
+        f.shape = "cycle%d" % k
+        g.f = f
+        g.push()
+        for i, (pn, pt) in enumerate(params):
+            g.declare(pn, pt, assignable=(i != 0))
+        args = ", ".join(["n-1"] + [pn for pn, _ in params[1:]])
+        nxt = names[(j + 1) % k]
+        base, alt = g.atom(t)[0], g.atom(t)[0]
+        L = ["if n <= 0 {", "\treturn %s" % base, "}"]
+        form = r.below(5)
+        f.callees.add(pkg + "." + nxt)
+        if form == 0:
+            L += ["return %s(%s)" % (nxt, args)]
+        elif form == 1:
+            L += ["x := %s(%s)" % (nxt, args), "if x == nil {", "\treturn %s" % alt, "}", "return x"]
+        elif form == 2:
+            L += ["x := %s(%s)" % (nxt, args), "if c {", "\tx = %s" % alt, "}", "return x"]
+        elif form == 3 and k > 2:
+            other = names[(j + 2) % k]      # a chord: two different members of the cycle are called
+            f.callees.add(pkg + "." + other)
+            L += ["x := %s(%s)" % (other, args), "y := %s(%s)" % (nxt, args), "if c {", "\treturn x", "}", "return y"]
+        else:
+            L += ["x := %s" % alt, "for i := 0; i < 2; i++ {", "\tx = %s(%s)" % (nxt, args), "}", "return x"]
+        g.pop()
+        f.feats |= {"call-cycle-%d" % k, "shape-cycle", "recursion-mutual"}
+        f.cost = 400
+        f.text = g.header(f) + " {\n" + "\n".join("\t" + l for l in L) + "\n}\n"
+        out.append(f)
+    return out
+
+
+def grid_functions():
+    """the merge grid: for every ordered pair of the four non-identity nilness values a function that
+    merges a value of the first kind with one of the second, in that operand order, (1) across return
+    statements, (2) at a phi; for pointers (Outer) and for the value held by an interface (Inner).
+    Always part of module m0 (never nil / always nil / nil only through a global / unknown)."""
+    src_p = {"never": "new(int)", "always": "(*int)(nil)", "mglobal": "{G}", "maybe": "p0"}
+    src_e = {"never": "error(&E{})", "always": "error(nil)", "mglobal": "{G}", "maybe": "p0"}
+    src_i = {"never": "error(&E{})", "always": "error((*E)(nil))", "mglobal": "error({G})", "maybe": "p0"}
+    out = []
+    kinds = ["never", "always", "mglobal", "maybe"]
+    for fam, t, srcs, gl in (("P", "pint", src_p, ["NP", "GP"]), ("E", "err", src_e, ["NE", "GE"]), ("I", "err", src_i, ["NPE", "GPE"])):
+        for x in kinds:
+            for y in kinds:
+                for shape in ("r", "phi"):
+                    if fam == "E" and shape == "phi":
+                        continue
+                    name = "G%s%s_%s_%s" % (fam, shape, x, y)
+                    a = srcs[x].replace("{G}", gl[0])
+                    b = srcs[y].replace("{G}", gl[1] if x == "mglobal" else gl[0])
+                    f = Func(name, "a", [("n", "int"), ("c", "bool"), ("p0", t)], [t], False, False)
+                    if shape == "r":
+                        body = "\tif c {\n\t\treturn %s\n\t}\n\treturn %s\n" % (a, b)
+                    else:
+                        body = "\tx := %s\n\tif c {\n\t\tx = %s\n\t}\n\treturn x\n" % (b, a)
+                        # the phi's first edge comes from the block of the assignment? either order is exercised by
+                        # the mirrored pair (y, x) of the grid
+                    f.text = "func %s(n int, c bool, p0 %s) %s {\n%s}\n" % (name, gotype(t, "a"), gotype(t, "a"), body)
+                    f.feats = {"grid", "grid-" + fam + shape}
+                    f.shape = "grid"
+                    f.grid = True
+                    out.append(f)
+    return out
+
+
 def gen_functions(seed, count, with_corpus=True):
     rng = vlib.SplitMix(seed).fork("c15-gen")
-    funcs = load_corpus() if with_corpus else []
-    for i in range(count):
+    funcs = (load_corpus() + grid_functions()) if with_corpus else []
+    i = 0
+    while i < count:
         r = rng.fork("f%d" % i)
         pkg = "a" if r.chance(1, 2) else "b"
+        kind = r.below(100)
+        if kind < 36:
+            g = Gen(r, list(funcs), pkg, i)
+            funcs.append(g.shape_function("S%d" % i))
+            i += 1
+            continue
+        if kind < 44:
+            cyc = cycle_functions(r, funcs, pkg, i)
+            funcs += cyc
+            i += len(cyc)
+            continue
         method = pkg == "a" and r.chance(1, 8)
         g = Gen(r, list(funcs), pkg, i)
         name = ("Md%d" if method else "F%d") % i
         f = g.function(name, method=method, recursive=r.chance(1, 10))
         funcs.append(f)
+        i += 1
     return funcs
 
 
@@ -1086,6 +1434,13 @@ def gen_vectors(f, rng, k, gconfs=None):
                 vecs.append((list(fv["globals"]), list(fv["args"])))
             else:
                 vecs.append((gconfs[0], list(fv)))
+        if getattr(f, "grid", False):
+            # both branches, with every global nil (configuration 0) and with a random configuration
+            for gc in (gconfs[0], gconfs[1]):
+                for cb in ("false", "true"):
+                    vecs.append((gc, ["0", cb] + [p[0] for p in pools[2:]]))
+            return vecs
+        shaped = getattr(f, "shape", None) is not None
         for j in range(k):
             if j == 0:
                 v = (gconfs[0], [p[0] for p in pools])
@@ -1093,6 +1448,11 @@ def gen_vectors(f, rng, k, gconfs=None):
                 v = (gconfs[1], [p[1 % len(p)] for p in pools])
             else:
                 v = (rng.choice(gconfs), [rng.choice(p) for p in pools])
+            if shaped:
+                # loops / recursion: 0, 1, 2, 3, many iterations, each with nil-ish and random other inputs;
+                # every second vector runs with all package-level variables nil
+                ns = INPUTS["int"]
+                v = (gconfs[0] if j % 2 == 0 else v[0], [ns[j % len(ns)]] + v[1][1:])
             if v not in vecs:
                 vecs.append(v)
         return vecs
@@ -1435,7 +1795,7 @@ def oracle(mod, res):
 
 
 # =========================================================================== the check
-MODULES = ["Verif.C15.Theorems"]
+MODULES = ["Verif.C15.Theorems", "Verif.C15.TheoremsExtra"]
 THEOREMS = [
     "Verif.C15.merge_sound",
     "Verif.C15.le_sound",
@@ -1450,6 +1810,18 @@ THEOREMS = [
     "Verif.C15.result_sound_always",
     "Verif.C15.sa4023_sound",
     "Verif.C15.checkPost_sound",
+    # strengthening round (TheoremsExtra.lean)
+    "Verif.C15.merge_comm",
+    "Verif.C15.merge_assoc",
+    "Verif.C15.merge_idem",
+    "Verif.C15.merge_upper",
+    "Verif.C15.merge_least",
+    "Verif.C15.asym_table_unsound",
+    "Verif.C15.dyn_call_outer_only_unsound",
+    "Verif.C15.ExLoop.selfloop_unvisited_rejected",
+    "Verif.C15.ExLoop.selfloop_certified",
+    "Verif.C15.ExLoop.selfloop_exec_nil",
+    "Verif.C15.ExLoop.selfloop_unvisited_wrong",
 ]
 
 
@@ -1470,7 +1842,7 @@ def func_from_record(e):
 def plan(ctx):
     """[(module tag, generator seed, number of generated functions, with corpus, vectors per function)]"""
     if ctx.quick:
-        return [("m0", ctx.seed * 1000 + 0, 70, True, 10), ("m1", ctx.seed * 1000 + 1, 100, False, 10),
+        return [("m0", ctx.seed * 1000 + 0, 40, True, 10), ("m1", ctx.seed * 1000 + 1, 100, False, 10),
                 ("m2", ctx.seed * 1000 + 2, 100, False, 10)]
     return [("m%d" % k, ctx.seed * 1000 + k, 240, k == 0, 16) for k in range(12)]
 
@@ -1763,7 +2135,8 @@ def run(ctx):
     ctx.assumptions += [
         "Sem.lean over-approximates Go on the modelled IR subset (no memory model: every load/field/index/receive/dynamic call yields an arbitrary type-correct value; panics have no successor state); this is validated only by the execution oracle",
         "IR contracts used by the semantics: SSA (a nil-test condition is evaluated at the branch), an Extract k>0 of a TypeSwitch executes only when case k-1 was selected, deferred nil calls panic before a normal return (C02 covers SSA well-formedness)",
-        "functions outside the modelled subset (generics, closures, bound-method wrappers) are covered by the execution oracle only",
+        "functions outside the modelled subset (generic functions, bound-method wrappers and their direct callers) are covered by the execution oracle only; closure bodies are never analysed by nilness.go (bail-out default), which is what the model does",
+        "for call cycles the driver approximates the order in which impl first requests callees by instruction order; the generator keeps the cycle calls of a function in one block, where the two coincide",
     ]
 
     # model / proof problems without an oracle failure: targeted violation search, then no-failing-input-found
@@ -1802,9 +2175,19 @@ META = {
             "the real lintcmd runner on generated two-package modules and dumps each function's IR; the compiled Lean model recomputes impl's "
             "value per function in the order of run/impl, re-checks that its solution is a post-fixpoint of a well-formed function (the "
             "hypotheses of result_sound) and the check demands Result.Nilness equal to or coarser than the model (describes_mono); SA4023 "
-            "reports must imply Outer=NeverNil. Explored, not proved: that the Lean semantics over-approximates Go (tested by compiling and "
+            "reports must imply Outer=NeverNil. Strengthening round: the model's merge table is a commutative idempotent monoid and merge is "
+            "the join of the order used for 'equal or coarser' (merge_comm/_assoc/_idem/_upper/_least); necessity results on concrete "
+            "instances: an asymmetric table cell breaks merge_sound (asym_table_unsound), recording only Outer for a dynamic call breaks "
+            "the Inner claim after a merge (dyn_call_outer_only_unsound), and for a single-block self loop the state family obtained "
+            "without revisiting the block for its own back edge claims NeverNil, is rejected by checkPost, and is contradicted by a "
+            "concrete execution returning nil (ExLoop.selfloop_*). The generator now emits shape functions (13 loop shapes incl. "
+            "single-block self loops, swaps/rotations across iterations, nested/break/continue/range/goto loops; 6 join shapes in both "
+            "operand orders; dynamic calls through func values, interface methods, closures and method values returning interfaces that "
+            "hold typed nils; never-assigned and init-assigned package-level variables), call cycles of length 2-4 and an always-run "
+            "80-function merge grid (every ordered pair of nilness values, across returns and at phis, Outer and Inner) that compares the "
+            "real merge table with the model's cell by cell. Explored, not proved: that the Lean semantics over-approximates Go (tested by compiling and "
             "executing every generated function on input vectors: the oracle), that real functions outside the generator behave like the "
-            "model (closures, generics, bound-method wrappers are outside the model), and the dense.Forward solver itself (C13; here only "
+            "model (generic functions and bound-method wrappers with their direct callers are outside the model; closure bodies are not analysed by nilness.go at all and are modelled as the bail-out default), and the dense.Forward solver itself (C13; here only "
             "its result is certified).",
     "note": "Trusted: Lean kernel (axioms propext/Classical.choice/Quot.sound), the compiled c15driver, harness/cmd/c15probe (IR dump, mirrors "
             "three type predicates of nilness.go: checkBound, allNonZero, fromInteger), the Go toolchain that compiles and runs the oracle "
